@@ -4,7 +4,7 @@ from onl.sim import Environment
 from onl.netdev import Port, PortMonitor
 from onl.netdev.red_port import REDPort
 import onl.netdev.red_port as red_mod
-from harness.fifo import FifoRun, source, run_many, INF
+from harness.fifo import FifoRun, source, run_many, INF, phase_of
 from harness import dynport
 from vlib.util import bits, run_driver, split_cases, quiet
 
@@ -53,6 +53,11 @@ class Draws:
         return x
 
 
+ASSUMPTIONS.append('"packets already waiting to start transmission" in the packet-limit oracle (`port-drop-packets-account`) is an account of the harness, not `len(store.items)`: '
+                   'packets accepted by put() minus packets the port process has taken - counted at the beginning of every kernel step as the departures seen at `out` plus one '
+                   'if the port process then holds a packet (its public `action.target` is a completed store request or a transmission timeout) - plus the packets accepted '
+                   'earlier in the same kernel step.  The port process runs in kernel steps of its own: a packet accepted in a step (a burst of back-to-back put() calls of one '
+                   'source activation) cannot have been taken by the port before the end of that step, so it counts as waiting for every later put of the burst')
 ASSUMPTIONS.append('"bytes held" in the byte-limit oracle is an account kept at the port\'s boundary (sizes accepted by `put` minus sizes handed to `out`), '
                    'not the port\'s own `byte_size`; a refusal is what `packets_dropped` counts')
 
@@ -66,8 +71,24 @@ class Ledger:
         self.puts = []            # (instant, packet id, size, bytes held before the put, refused?)
         self.badstamp = []        # (instant, packet id, stamp found after the put, stamp carried before it)
         self.restamped = 0        # puts of packets that already carried a stamp under this port's element id
+        # packets "waiting to start transmission", by the harness's own account (see ASSUMPTIONS): accepted, minus taken by the port process as
+        # counted at the beginning of the current kernel step
+        self.naccepted = self.ndeps = 0
+        self.wait0 = 0            # accepted and not taken when the current kernel step began
+        self.acc_in_step = 0
+        self.idle0 = True         # the port process held no packet when the current kernel step began
+        self.pputs = []           # (instant, packet id, packets waiting before the put, refused?, idle port at the beginning of the step?)
         port = run.dev
         inner_put, inner_out, led = port.put, port.out, self
+        inner_before = run.before_step
+
+        def before_step():
+            holds = phase_of(port.action) in ('H', 'T')
+            led.wait0 = led.naccepted - led.ndeps - (1 if holds else 0)
+            led.acc_in_step = 0
+            led.idle0 = not holds and led.wait0 == 0
+            inner_before()
+        run.before_step = before_step
 
         def put(packet):
             d0, h = port.packets_dropped, led.held
@@ -81,12 +102,15 @@ class Ledger:
                     led.badstamp.append((run.env.now, packet.packet_id, found, before))
             refused = port.packets_dropped > d0
             led.puts.append((run.env.now, packet.packet_id, packet.size, h, refused))
+            led.pputs.append((run.env.now, packet.packet_id, led.wait0 + led.acc_in_step, refused, led.idle0))
             if not refused:
                 led.held += packet.size
+                led.naccepted += 1; led.acc_in_step += 1
 
         class Out:
             def put(self, packet):
                 led.held -= packet.size
+                led.ndeps += 1
                 inner_out.put(packet)
 
         port.put, port.out = put, Out()
@@ -142,6 +166,21 @@ def gen_case(rng, cid, mode=None):
                 else:
                     d = rng.choice([0, 0, 1, 2, 5, 0.5, drain, unit * 8 / rate if rate > 0 else 1])
                     script.append((d, [(rng.randrange(3), unit)] * rng.choice([1, k, k, k + 1, k + 2])))
+            c['sources'].append(script)
+    if mode == 'packets' and c['qlimit'] >= 2 and rng.random() < 0.5:
+        # exact fills in packet mode: bursts of qlimit-1, qlimit, qlimit+1 ... packets handed over back to back in one instant, into a port that had time to
+        # drain and is idle (its process blocked on the empty store) as well as into a busy one: "refused iff qlimit-1 packets are already waiting to
+        # start transmission" - of a burst into an idle port exactly qlimit-1 are admitted (none of them has started while the burst is being put)
+        q = c['qlimit']
+        unit = rng.choice(sizes)
+        c['pfill'] = {'unit': unit}
+        drain = (q * unit * 8 / rate if rate > 0 else 0) * 2 + 1
+        c['sources'] = []
+        for _ in range(rng.randint(1, 2)):
+            script = []
+            for _ in range(rng.randint(1, 6)):
+                d = rng.choice([0, 0.5, drain, drain, drain, unit * 8 / rate if rate > 0 else 1])
+                script.append((d, [(rng.randrange(3), unit if rng.random() < 0.8 else rng.choice(sizes)) for _ in range(rng.choice([1, q - 1, q, q, q + 1, q + 2]))]))
             c['sources'].append(script)
     if mode != 'red' and rng.random() < 0.35:
         # the same Packet OBJECT is offered again later (a sender retransmitting the object after a tail drop or after a delivery, a
@@ -386,6 +425,19 @@ def oracle(c, run):
                                       f'{held} + {size} {">" if held + size > (c["qlimit"] if c["mode"] == "bytes" else INF) else "<="} '
                                       f'{c["qlimit"] if c["mode"] == "bytes" else "inf"}: it was {"refused" if refused else "admitted"}',
                               'signature': 'port-drop-bytes-rule'})
+                break
+    # "with a packet limit [a packet is refused] iff qlimit-1 packets are already waiting to start transmission (one place is always reserved
+    # for the packet in transmission)" - both directions, the waiting packets counted by the ledger (accepted and not yet taken by the port
+    # process; a packet accepted earlier in the same kernel step is waiting), not read from the port's store
+    if led is not None and c['mode'] == 'packets':
+        for t, pid, nwait, refused, idle0 in led.pputs:
+            if (nwait >= c['qlimit'] - 1) != refused:
+                burst = sum(1 for x in led.pputs if x[0] == t)
+                fails.append({'what': f'packet limit {c["qlimit"]}: packet {pid} arrived at {t!r} with {nwait} packets waiting to start transmission (accepted by put() and '
+                                      f'not yet taken by the port process, by the harness\'s own account; {burst} packets were offered in this instant'
+                                      f'{", the port was idle when the burst began" if idle0 else ""}): it was {"refused" if refused else "admitted"}, '
+                                      f'the rule (refused iff qlimit - 1 = {c["qlimit"] - 1} are waiting) says {"admit" if refused else "refuse"}',
+                              'signature': 'port-drop-packets-account'})
                 break
     # tail-drop decisions, recomputed from the arrival/departure history
     if c['mode'] in ('none', 'bytes', 'packets'):
@@ -931,6 +983,13 @@ def run(ctx):
                 hist['ports_offered_existing_packet_objects_again'] += 1
             if uc['hasid'] and uc['mode'] != 'red':
                 hist['puts_of_packets_already_stamped_under_the_port_id'] += ur.ledger.restamped
+            if uc['mode'] == 'packets':
+                pp = ur.ledger.pputs
+                hist['packet_limit:puts_judged_against_the_harness_account_of_waiting_packets'] += len(pp)
+                hist['packet_limit:puts_with_exactly_qlimit-1_waiting'] += sum(1 for x in pp if x[2] == uc['qlimit'] - 1)
+                # bursts of at least qlimit packets offered in one instant to a port that was idle (running, its process holding no packet) when the burst began
+                byt = collections.Counter(x[0] for x in pp if x[4])
+                hist['packet_limit:same-instant_bursts_of_at_least_qlimit_packets_into_an_idle_port'] += sum(1 for t, n in byt.items() if n >= max(uc['qlimit'], 2))
             ua, ub = ur.obs, model.get(uc['cid'])
             if ua != ub:
                 i = next((i for i in range(max(len(ua), len(ub or []))) if i >= len(ua) or not ub or i >= len(ub) or ua[i] != ub[i]), 0)
